@@ -79,6 +79,9 @@ def load_text(text):
         tree = ast.parse(text)
     except SyntaxError as e:
         return None, "SyntaxError: %s" % e.msg, ""
+    except (UnicodeError, ValueError) as e:
+        # text that cannot even be encoded as source (a raw lone surrogate): it does not compile
+        return None, "%s: %s" % (type(e).__name__, str(e)[:80]), ""
     import types
     mod = types.ModuleType(MODNAME)
     ns = mod.__dict__
